@@ -345,6 +345,7 @@ func (ex *Exec) execInstr(fr *Frame, st *State, in ssa.Instruction) {
 			fr.regs[in] = ex.stringIndex(st, x, idx, in)
 			return
 		}
+		ex.mapAccessObligations(fr, st, in)
 		fr.regs[in] = ex.mapLookup(st, x, ex.eval(fr, st, in.Index), in.CommaOk, in.Type())
 
 	case *ssa.Slice:
@@ -354,7 +355,7 @@ func (ex *Exec) execInstr(fr *Frame, st *State, in ssa.Instruction) {
 		ln := ex.toIndex(ex.eval(fr, st, in.Len))
 		cp := ex.toIndex(ex.eval(fr, st, in.Cap))
 		ex.oblige(st, "make", ex.siteWhat(in), tb.And(ex.geZero(ln), ex.le(ln, cp)), in, "makeslice: len out of range")
-		ex.allocBound(st, ln, in)
+		ex.allocObligation(fr, st, cp, in)
 		fr.regs[in] = ex.makeSlice(st, in.Type(), ln, cp)
 
 	case *ssa.MakeMap:
@@ -435,6 +436,7 @@ func (ex *Exec) execInstr(fr *Frame, st *State, in ssa.Instruction) {
 		m := ex.eval(fr, st, in.Map)
 		k := ex.eval(fr, st, in.Key)
 		v := ex.eval(fr, st, in.Value)
+		ex.mapAccessObligations(fr, st, in)
 		ex.oblige(st, "nilmap", ex.siteWhat(in), tb.Not(tb.Eq(m.C[0], ex.refLit(0))), in, "assignment to entry in nil map")
 		ex.mapStore(st, m, k, v)
 
